@@ -179,3 +179,12 @@ def c18_lite_block_keeps_listed(ctx, v):
             seen += 1
         v.covers_total += 1
         v.covers_sat += 1 if seen else 0
+
+
+def c18_placeholder_wire_roundtrip(ctx, v):
+    """a lite block travels to the light client as transactions on the wire: every wire field of a
+    transaction — txs_replacements, the number of transactions a merged placeholder stands for,
+    included — survives serialize_for_net / deserialize_from_net (same obligation as C09
+    c09_m_tx_roundtrip)."""
+    from . import obl_c09
+    obl_c09.c09_m_tx_roundtrip(ctx, v)
